@@ -29,6 +29,7 @@ type Clause struct {
 	Expr  string
 	Line  int
 	File  string
+	Callee string // for calls clauses: full name of the callee
 	Pred  string // name of the synthesized predicate function
 	// for loop clauses: the locals passed to the predicate, in order
 	Locals []string
@@ -58,7 +59,7 @@ func (c *Contract) byKind(k string) []*Clause {
 
 func (c *Contract) id() string { return c.Pkg + "." + c.Func }
 
-var clauseRe = regexp.MustCompile(`^(requires|ensures|relates|loop|assigns|reads|option|func|lemma|props)\b(\[[A-Za-z0-9_.@+\-]+\])?\s*(.*)$`)
+var clauseRe = regexp.MustCompile(`^(requires|ensures|exits|calls|relates|loop|assigns|reads|option|func|lemma|props)\b(\[[A-Za-z0-9_.@+\-]+\])?\s*(.*)$`)
 
 // parseContracts reads the //@ clause blocks of a contracts file.
 func parseContracts(pkgPath, file string, src []byte) ([]*Contract, error) {
@@ -571,10 +572,12 @@ func (w *World) processRepoPackageOnce(p *packages.Package, imp types.Importer, 
 			}
 		}
 	}
+	qualPkgs := map[string]string{} // package name -> path, for every package named in a generated signature
 	qual := func(q *types.Package) string {
 		if q == p.Types {
 			return ""
 		}
+		qualPkgs[q.Name()] = q.Path()
 		return q.Name()
 	}
 	var gen bytes.Buffer
@@ -655,6 +658,41 @@ func (w *World) processRepoPackageOnce(p *packages.Package, imp types.Importer, 
 				if ant, ok := topAntecedent(cl.Expr); ok {
 					fmt.Fprintf(&gen, "func %s_ant(%s) bool { return %s }\n\n", cl.Pred, strings.Join(append(append([]string{}, params...), results...), ", "), rewriteImplies(ant))
 				}
+			case "calls":
+				// calls[label] <callee full name> : <predicate over the caller's parameters and arg0..argN>
+				idx := strings.Index(cl.Expr, " : ")
+				if idx < 0 {
+					return c.id(), fmt.Sprintf("calls clause at line %d needs the form '<callee> : <predicate>'", cl.Line), nil
+				}
+				cl.Callee = strings.TrimSpace(cl.Expr[:idx])
+				pexpr := rewriteImplies(strings.TrimSpace(cl.Expr[idx+3:]))
+				sigc := w.findCalleeSig(p, cl.Callee)
+				if sigc == nil {
+					return c.id(), fmt.Sprintf("calls clause at line %d names %q, which is not a function known to package %s", cl.Line, cl.Callee, p.PkgPath), nil
+				}
+				if cl.Label == "" {
+					cl.Label = fmt.Sprintf("%d", nens)
+				}
+				nens++
+				var cargs []string
+				k := 0
+				if sigc.Recv() != nil {
+					cargs = append(cargs, fmt.Sprintf("arg%d %s", k, types.TypeString(sigc.Recv().Type(), qual)))
+					k++
+				}
+				for i := 0; i < sigc.Params().Len(); i++ {
+					cargs = append(cargs, fmt.Sprintf("arg%d %s", k, types.TypeString(sigc.Params().At(i).Type(), qual)))
+					k++
+				}
+				cl.Pred = fmt.Sprintf("vcC_%s_%s", base, strings.ReplaceAll(sanitize(cl.Label), ".", "_"))
+				fmt.Fprintf(&gen, "func %s(%s) bool { return %s }\n\n", cl.Pred, strings.Join(append(append([]string{}, params...), cargs...), ", "), pexpr)
+			case "exits":
+				if cl.Label == "" {
+					cl.Label = fmt.Sprintf("%d", nens)
+				}
+				nens++
+				cl.Pred = fmt.Sprintf("vcX_%s_%s", base, strings.ReplaceAll(sanitize(cl.Label), ".", "_"))
+				fmt.Fprintf(&gen, "func %s(%s) bool { return %s }\n\n", cl.Pred, strings.Join(params, ", "), expr)
 			case "relates":
 				if cl.Label == "" {
 					cl.Label = fmt.Sprintf("%d", nens)
@@ -814,9 +852,10 @@ func (w *World) processRepoPackageOnce(p *packages.Package, imp types.Importer, 
 			}
 		}
 		// packages named in signatures
-		for name, path := range impNames {
-			_ = path
-			_ = name
+		for name, path := range qualPkgs {
+			if _, ok := impNames[name]; !ok {
+				impNames[name] = path
+			}
 		}
 		var hdr bytes.Buffer
 		fmt.Fprintf(&hdr, "//go:build verif\n\npackage %s\n\n", p.Name)
@@ -830,12 +869,20 @@ func (w *World) processRepoPackageOnce(p *packages.Package, imp types.Importer, 
 				fmt.Fprintf(&hdr, "import %s %q\n", n, impNames[n])
 			}
 		}
+		if !strings.Contains(hdr.String(), "import fmt ") {
+			hdr.WriteString("import fmt \"fmt\"\n\nvar _ = fmt.Sprintf\n")
+		}
 		hdr.WriteString("\n")
 		helpers := map[string]string{
 			"old":     "func old[T any](x T) T { return x }\n",
 			"forall":  "func forall(lo, hi int, p func(k int) bool) bool { for k := lo; k < hi; k++ { if !p(k) { return false } }; return true }\n",
 			"exists":  "func exists(lo, hi int, p func(k int) bool) bool { for k := lo; k < hi; k++ { if p(k) { return true } }; return false }\n",
 			"vcIter":  "func vcIter() int { return 0 }\n",
+			"vcSame":       "func vcSame[T any](a, b T) bool { return fmt.Sprintf(\"%p\", any(a)) == fmt.Sprintf(\"%p\", any(b)) }\n",
+			"vcWriteCount": "func vcWriteCount() int { return 0 }\n",
+			"vcWritten":    "func vcWritten() []byte { return nil }\n",
+			"vcExitCode":   "func vcExitCode() int { return 0 }\n",
+			"vcPrinted":    "func vcPrinted() bool { return false }\n",
 			"implies": "func implies(a, b bool) bool { return !a || b }\n",
 		}
 		var hn []string
@@ -1059,6 +1106,83 @@ func (w *World) contractFor(fn *ssa.Function) *Contract {
 	}
 	if c := w.Contracts[fn.Pkg.Pkg.Path()+"."+name]; c != nil && c.Broken == "" {
 		return c
+	}
+	return nil
+}
+
+// findCalleeSig resolves names like "pkg.Func", "(*pkg.Type).Method", "(pkg.Type).Method"
+// (pkg = package name as imported by p, or a full path) to a signature.
+func (w *World) findCalleeSig(p *packages.Package, name string) *types.Signature {
+	lookupPkg := func(q string) *types.Package {
+		if q == "" || q == p.Name {
+			return p.Types
+		}
+		for path, tp := range w.Types {
+			if path == q || tp.Name() == q {
+				if _, imported := p.Imports[path]; imported || path == q {
+					return tp
+				}
+			}
+		}
+		for path, ip := range p.Imports {
+			if ip.Name == q || path == q {
+				return ip.Types
+			}
+		}
+		// transitively known packages (e.g. text/template through a dependency)
+		for path, tp := range w.Types {
+			if path == q || strings.HasSuffix(path, "/"+q) || tp.Name() == q {
+				return tp
+			}
+		}
+		return nil
+	}
+	if strings.HasPrefix(name, "(") {
+		i := strings.Index(name, ").")
+		if i < 0 {
+			return nil
+		}
+		recv := strings.TrimPrefix(name[1:i], "*")
+		ptr := strings.HasPrefix(name[1:i], "*")
+		meth := name[i+2:]
+		j := strings.LastIndex(recv, ".")
+		pk := lookupPkg("")
+		tn := recv
+		if j >= 0 {
+			pk = lookupPkg(recv[:j])
+			tn = recv[j+1:]
+		}
+		if pk == nil {
+			return nil
+		}
+		obj, ok := pk.Scope().Lookup(tn).(*types.TypeName)
+		if !ok {
+			return nil
+		}
+		var t types.Type = obj.Type()
+		if ptr {
+			t = types.NewPointer(t)
+		}
+		ms := types.NewMethodSet(t)
+		for k := 0; k < ms.Len(); k++ {
+			if ms.At(k).Obj().Name() == meth {
+				return ms.At(k).Obj().Type().(*types.Signature)
+			}
+		}
+		return nil
+	}
+	j := strings.LastIndex(name, ".")
+	pk := lookupPkg("")
+	fnName := name
+	if j >= 0 {
+		pk = lookupPkg(name[:j])
+		fnName = name[j+1:]
+	}
+	if pk == nil {
+		return nil
+	}
+	if f, ok := pk.Scope().Lookup(fnName).(*types.Func); ok {
+		return f.Type().(*types.Signature)
 	}
 	return nil
 }
